@@ -1,6 +1,6 @@
 """C07: trash-put picks the trash dir the spec prescribes, on the file's own
 volume."""
-from . import put, trashdirs, purge, scenarios
+from . import put, trashdirs, purge, scenarios, options
 
 PROPERTY = 'C07'
 
@@ -17,6 +17,11 @@ LEVEL_NOTE = ('decision tables: home trash path from the environment (XDG set '
               'the file volume before anything is created), home fallback only '
               'with TRASH_ENABLE_HOME_FALLBACK=1, skeleton created 0700')
 EXPECTED = [
+    'put-options/mode-is-the-last-of-f-and-i',
+    'put-options/home-fallback-only-with-its-flag',
+    'put-options/trash-dir-is-the-last-trash-dir-value',
+    'put-options/files-are-the-operands-in-order',
+    'put-options/no-file-operand-is-a-usage-error-with-non-zero-exit',
     'trashcli.lib.trash_dirs.home_trash_dir_path_from_env/post/xdg-then-home',
     'trashcli.put.trash_directories_finder.TrashDirectoriesFinder.possible_trash_directories_for/post/candidates-in-the-prescribed-order',
     'trashcli.put.trash_directories_finder.TrashDirectoriesFinder.possible_trash_directories_for/post/top-candidate-is-volume-dot-Trash-uid',
@@ -37,6 +42,7 @@ def build(S, tier, seed):
     act = put.leaf_vcs(S)
     put.trash_file_in_vc(S, conservation=False)
     put.trash_file_vc(S)
+    options.put_options_vc(S)
 
 
 def _battery(S, r, o):
